@@ -28,6 +28,11 @@ def run(ctx):
     ws, wsym = fmt_writes(fn, F)
     pvprints = [w for w in ws if w[2] and w[2][0][1][0] == "call" and w[2][0][1][1] == "chess::move_struct::Move::uci_notation"]
     ctx.floor("C18.V1", "pv move print sites", len(pvprints), 1)
+    ctx.check("C18.V1", "pv-moves-printed-at-one-site", len(pvprints) == 1, fn=DRIVER, file=fn["file"],
+              line=hir.line(pvprints[1][0]) if len(pvprints) > 1 else fn["span"][0],
+              what="moves of the `info pv` line are printed at more than one place: only the walk that re-derives each position from the "
+                   "table can be checked to print playable moves (a line collected elsewhere, e.g. during the search, is printed unverified)",
+              expected=1, found=len(pvprints))
     if len(pvprints) != 1:
         return
     node, text, args, guards = pvprints[0]
@@ -136,6 +141,7 @@ def run(ctx):
     # V3
     before, nv = len(ctx.instances), len(ctx.violations)
     p06.p2(ctx, F)
+    p06.p3(ctx, F)      # and nothing that works on unverified (pseudo-legal) lists reaches the table at all
     for i in ctx.instances[before:]:
         i["rule"] = "C18.V3(" + i["rule"] + ")"
     for v in ctx.violations[nv:]:
